@@ -54,6 +54,8 @@ so that the renderings of the earlier modules stay byte-identical):
   * a nested helper that cannot be inlined (its body is outside the subset, e.g. string parsing) and that reads no
     variable of the enclosing function is the OPAQUE external `helper#<k>` (k = its position among the nested defs:
     renaming it changes nothing); the theorem states what it assumes about it;
+  * `any(v == y for v in xs)` is `y in xs`; a call `C(x, k=y)` of a class / function defined at module level of the same
+    file is written with every argument as a keyword (`C(a=,k=)`), whichever way the source passes them;
   * `if c: return a` directly followed by `return b` (and `if c: return a else: return b`) is `return a if c else b`;
   * `for x in it: if c: return True` directly followed by `return False` is `return any(c for x in it)`;
   * the empty dict literal `{}`; `xs.index(v)`, `zip(xs, ys)` (builtins of the interpreter);
@@ -240,8 +242,8 @@ def stdlib_loggers(tree: ast.AST) -> set:
 
 class Tr:
     def __init__(self, fn: ast.FunctionDef, enums: dict[str, list[str]], loggers=frozenset(), plumbing=False,
-                 opaque=()):
-        self.fn, self.enums, self.loggers, self.plumbing = fn, enums, loggers, plumbing
+                 opaque=(), module=None):
+        self.fn, self.enums, self.loggers, self.plumbing, self.module = fn, enums, loggers, plumbing, module
         self.helpers = {s.name: s for s in fn.body if isinstance(s, ast.FunctionDef)}
         # helpers that are to be externals although they could be inlined (string parsing, …): given as
         # (name, position among the nested defs); found by name, or - after a renaming - by position
@@ -404,6 +406,46 @@ class Tr:
                 cond = ("and", c, cond)
         return x, it, cond, sub2
 
+    def signature(self, name: str):
+        """parameter names of a class (its `__init__` without `self`, or the fields of a dataclass) / function defined
+        at module level of the file the translated function lives in; None if unknown or not plain"""
+        for n in getattr(self.module, "body", []):
+            fn = None
+            if isinstance(n, ast.FunctionDef) and n.name == name:
+                fn, skip = n, 0
+            elif isinstance(n, ast.ClassDef) and n.name == name:
+                inits = [m for m in n.body if isinstance(m, ast.FunctionDef) and m.name == "__init__"]
+                if inits:
+                    fn, skip = inits[0], 1
+                elif any((isinstance(d, ast.Name) and d.id == "dataclass") or
+                         (isinstance(d, ast.Call) and isinstance(d.func, ast.Name) and d.func.id == "dataclass")
+                         for d in n.decorator_list):
+                    return [m.target.id for m in n.body if isinstance(m, ast.AnnAssign) and isinstance(m.target, ast.Name)]
+                else:
+                    return None
+            if fn is not None:
+                a = fn.args
+                if a.vararg or a.kwarg or a.kwonlyargs or a.posonlyargs:
+                    return None
+                return [x.arg for x in a.args][skip:]
+        return None
+
+    def canonical_call(self, e: ast.Call, sub):
+        """`C(x, k=y)` for a callee `C` of the same file whose parameters are known: every argument becomes a keyword
+        (`C(a=x, k=y)`), so that writing an argument positionally or by keyword gives the same translation"""
+        f = e.func
+        if not (self.plumbing and isinstance(f, ast.Name) and f.id not in sub and f.id not in self.bound
+                and f.id not in self.helpers and f.id not in _BUILTIN and (e.args or e.keywords)):
+            return None
+        if any(k.arg is None for k in e.keywords) or any(isinstance(a, ast.Starred) for a in e.args):
+            return None
+        sig = self.signature(f.id)
+        if sig is None or len(e.args) > len(sig) or any(k.arg not in sig for k in e.keywords) \
+                or set(sig[:len(e.args)]) & {k.arg for k in e.keywords}:
+            return None
+        kws = [ast.keyword(arg=sig[i], value=a) for i, a in enumerate(e.args)] + list(e.keywords)
+        return self.kwcall(ast.Call(func=f, args=[], keywords=kws), sub)
+
     def kwcall(self, e: ast.Call, sub):
         """a call with keyword arguments of something that is not inlined: external `f(k1=,k2=)`"""
         f = e.func
@@ -438,6 +480,9 @@ class Tr:
         return ("ext", f"helper#{k}", [self.expr(a, sub) for a in args])
 
     def call(self, e: ast.Call, sub):  # noqa: C901, PLR0911, PLR0912
+        canon = self.canonical_call(e, sub)
+        if canon is not None:
+            return canon
         if e.keywords:
             if self.plumbing:
                 return self.kwcall(e, sub)
@@ -453,6 +498,14 @@ class Tr:
                     x, it, cond, sub2 = self.generator(a, sub)
                     if cond != TRUE:
                         raise TranslationError("any/all over a filtered generator")
+                    el = a.elt
+                    if self.plumbing and name == "any" and isinstance(el, ast.Compare) and len(el.ops) == 1 \
+                            and isinstance(el.ops[0], ast.Eq) and isinstance(a.generators[0].target, ast.Name):
+                        # `any(v == y for v in xs)` / `any(y == v for v in xs)` is `y in xs` (membership by `==`)
+                        sides = [el.left, el.comparators[0]]
+                        for k in (0, 1):
+                            if isinstance(sides[k], ast.Name) and sides[k].id == x and x not in _names_in([sides[1 - k]]):
+                                return ("cmp", "isIn", self.expr(sides[1 - k], sub), it)
                     return (tag, x, it, self.expr(a.elt, sub2))
                 self.fresh += 1
                 x = f"_it{self.fresh}"
@@ -866,11 +919,11 @@ def canonical_init_prefix(body: list) -> list:
 
 
 def translate_function(fn: ast.FunctionDef, enums, loggers=frozenset(), scoped=False, plumbing=False,
-                       opaque=()) -> dict:
+                       opaque=(), module=None) -> dict:
     a = fn.args
     if a.vararg or a.kwarg or a.kwonlyargs or a.posonlyargs:
         raise TranslationError(f"{fn.name}: only plain positional parameters are supported")
-    tr = Tr(fn, enums, loggers, plumbing, opaque)
+    tr = Tr(fn, enums, loggers, plumbing, opaque, module)
     params, body, names = normalise_names([p.arg for p in a.args], canonical_init_prefix(tr.block(fn.body)), scoped)
     return {"params": params, "body": body, "names": names}
 
@@ -895,7 +948,7 @@ def extract_funcs(src, funcs, scoped_comp=False, plumbing=False, opaque=None) ->
     for lean, rel, path in funcs:
         fn, _ = find_def(tree(rel), path)
         out[lean] = dict(translate_function(fn, enums, stdlib_loggers(tree(rel)), scoped_comp, plumbing,
-                                            (opaque or {}).get(lean, ())),
+                                            (opaque or {}).get(lean, ()), tree(rel)),
                          path=f"{rel}: {path}")
     return out
 
